@@ -272,6 +272,7 @@ func checkC05(tier string) int {
 	if thorough {
 		nGen = 6000
 	}
+	nGen = envInt("VERIF_GEN", nGen)
 	genRejected := 0
 	for i := 0; i < nGen; i++ {
 		gr := prng.Stream(seed, "heapsim", "gen", i)
